@@ -19,21 +19,25 @@ def plans(quick):
     return {
         "T1-one-model": dict(Ws={1, 2}, Layouts1={2, 3, 4, 5, 6}, Layouts2={9}, BaseKinds={0, 1, 2}, K=3, CPool={1, 2, 3, 4}, TPool={1, 2},
                              TextAlpha={A, HI}, MaxText=5, Tie=False, Swap=False),
-        "T2-two-models": dict(Ws={2}, Layouts1={0, 1, 2, 4}, Layouts2={0, 2, 3, 5, 6}, BaseKinds={0, 3}, K=2, CPool={1, 2, 5, 6}, TPool={1, 3, 4},
+        # (sized to stay below ~25 GB of resident memory per family: the cases of one family are held while they are replayed)
+        "T2-two-models": dict(Ws={2}, Layouts1={0, 1, 2, 4}, Layouts2={2, 3, 6}, BaseKinds={0, 3}, K=2, CPool={1, 2, 6}, TPool={1, 3, 4},
                               TextAlpha={A, HI, ONE}, MaxText=4, Tie=False, Swap=True),
         "T3-ties": dict(Ws={1, 2}, Layouts1={2, 3}, Layouts2={2, 9}, BaseKinds={0, 2}, K=2, CPool={1, 2}, TPool={1},
                         TextAlpha={A, HI}, MaxText=4, Tie=True, Swap=False),
     }
 
 
-def generate(ctx, quick):
+def generate(ctx, quick, only=None):
     out = []
     for name, consts in plans(quick).items():
+        if only and name not in only:
+            continue
         cfg = vlib.cfg_text(constants=consts, invariants=["WF", "Emit"])
         res = vlib.tlc(f"{ctx.prop}-gen-{name}", "Gen_Tags", cfg, timeout=3000)
         if res["violated"]:
             raise vlib.ToolError(f"Gen_Tags {name}: generated model not well-formed")
         cases = vlib.nonempty(vlib.cases_from(res["out"]), f"Gen_Tags {name}")
+        res["out"] = ""          # (the printed cases are large; keep only the counters)
         ctx.add_tlc(res, f"Gen_Tags family {name}: {len(cases)} models x {len(cases[0]['runs'])} texts, expected tags and "
                          "candidate scores by RefTagRows/RefTokenCands")
         out += [(name, c) for c in cases]
@@ -79,24 +83,30 @@ def run(ctx):
                 "<=K tag n-gram entries at relative positions 0..window, boundary part possibly empty, ties) x all texts of "
                 "the family alphabet; plus seeded random models/texts with boundaries from prediction or set by hand "
                 "(incl. unknown); non-trivial = (model,text) pair in which some token has a tag model")
-    cases = generate(ctx, ctx.quick)
-    hcases = []
-    for i, (fam, c) in enumerate(cases):
-        # every third model through a predictor that does NOT store candidate scores (the tags must be the same)
-        hcases.append(to_history(i, fam, c, store=(i % 3 != 2)))
-        toks = [tuple(t["token"]) for t in c["model"]["tags"]]
-        for r in c["runs"]:
-            ctx.evaluations += 1
-            if any(tuple(t["surf"]) in toks for t in r["expect"]["tokens"]):
-                ctx.nontriv((i, tuple(r["text"])))
-        if i % 301 == 5:
-            r = c["runs"][-1]
-            ctx.sample({"family": fam, "tag_models": c["model"]["tags"], "text": r["text"], "expected_tokens": r["expect"]["tokens"]}, limit=3)
-
     def sig(c, fail):
         return f"C06:{c['key']}:step{fail[0]}:{fail[1]}"
-    bad = vlib.check_histories(ctx, binp, "C06-families", hcases, sigfn=sig)
-    ctx.add_part(replayed="tag model families", models=len(hcases), failing_models=bad)
+    total = bad = 0
+    # one family at a time (generate, replay, compare, discard): the thorough tier has several 10^6 (model, text) pairs
+    for fam_name in plans(ctx.quick):
+        cases = generate(ctx, ctx.quick, only=[fam_name])
+        hcases = []
+        for (fam, c) in cases:
+            i = total + len(hcases)
+            # every third model through a predictor that does NOT store candidate scores (the tags must be the same)
+            hcases.append(to_history(i, fam, c, store=(i % 3 != 2)))
+            toks = [tuple(t["token"]) for t in c["model"]["tags"]]
+            for r in c["runs"]:
+                ctx.evaluations += 1
+                if any(tuple(t["surf"]) in toks for t in r["expect"]["tokens"]):
+                    ctx.nontrivial_count += 1
+            if i % 301 == 5:
+                r = c["runs"][-1]
+                ctx.sample({"family": fam, "tag_models": c["model"]["tags"], "text": r["text"], "expected_tokens": r["expect"]["tokens"]}, limit=3)
+        del cases
+        bad += vlib.check_histories(ctx, binp, f"C06-{fam_name}", hcases, sigfn=sig)
+        total += len(hcases)
+        del hcases
+    ctx.add_part(replayed="tag model families", models=total, failing_models=bad)
     C01.random_traces(ctx, binp, kind="tags", n_models=500 if ctx.quick else 8000)
 
 
